@@ -647,8 +647,10 @@ def same_value(a, b, continuous):
 class Cases:
     def __init__(self):
         self.terms, self.meta = [], []
+        self.slack = 0.0     # binary64 slack of the encoder cases currently being generated
 
-    def add(self, tb, scale, op_term, obs_term, meta, slack=0.0):
+    def add(self, tb, scale, op_term, obs_term, meta):
+        slack = self.slack
         self.terms.append("(mk %s %s %s %s %s %s %s %s)" % (tb.term("tl"), tb.term("fl"), tb.term("tr"),
                                                              tb.term("fr"), q(scale), q(slack), op_term, obs_term))
         if slack > 1e-9:
@@ -738,6 +740,7 @@ def run(ctx, replay=None):
                 else:
                     ctx.h("boundary_accepted", C.meta[i].get("op"))
         ctx.h("coq_cases", "total", len(C.terms))
+        ctx.h("coq_cases", "with_binary64_slack_gt_1e-9", sum(1 for m in C.meta if m.get("slack")))
 
 
 def single_domain_cases(ctx, C, spec, rng, cs, make_hpr, only=None, forced_active=None):
@@ -877,7 +880,9 @@ def single_domain_cases(ctx, C, spec, rng, cs, make_hpr, only=None, forced_activ
                                                  op="make_hyperparameter_ranges",
                                                  defect="unusable_with_one_category" if ncat == 1 else "construction_raises"))
                 continue
+            C.slack = spec_slack(spec)
             range_cases(ctx, C, spec, active, dom, adom if active else None, hpr, rng, count, scale)
+            C.slack = 0.0
 
     # ---------------- JSON ---------------------------------------------------------------------------
     if want("json"):
@@ -1072,6 +1077,13 @@ def range_cases(ctx, C, spec, active, dom, adom, hpr, rng, count, scale):
 
 
 def space_cases(ctx, C, rng, cs, make_hpr, spaces):
+    try:
+        _space_cases(ctx, C, rng, cs, make_hpr, spaces)
+    finally:
+        C.slack = 0.0
+
+
+def _space_cases(ctx, C, rng, cs, make_hpr, spaces):
     kinds = ["uniform", "loguniform", "reverseloguniform", "randint", "lograndint", "choice", "choice", "ordinal_equal",
              "ordinal_nn", "ordinal_nnlog", "finrange", "logfinrange"]
     if spaces is None:
@@ -1120,6 +1132,7 @@ def space_cases(ctx, C, rng, cs, make_hpr, spaces):
         specs = [S["space"][k] for k in keys]
         actives = [S["active"].get(k) for k in keys]
         scale = max(spec_scale(s) for s in specs)
+        C.slack = max(spec_slack(s) for s in specs)
         case = dict(space=S)
         ctx.h("space_dims", hpr.ndarray_size)
         ctx.h("space_opts", "prefix" if S["prefix_keys"] else "noprefix")
